@@ -40,3 +40,22 @@ package distributed
 //@   ensures #topicGets == old(#topicGets) + 1
 //@ func (SessionMetadatasState).ByClientID(s SessionMetadatasState, clientID string) (md api.SessionMetadatas, err error)
 //@   modifies nothing
+//@   records #lastLookupFound := err == nil
+//@   records #lastLookupSession := md.SessionID
+//@   records #lastLookupMP := md.MountPoint
+//@ func (SessionMetadatasState).Create(s SessionMetadatasState, id string, clientID string, connectedAt int64, lwt *packet.Publish, mountpoint string) (err error)
+//@   modifies #metaCreates, #lastMetaCreated, #lastMetaCreatedMP
+//@   ensures #metaCreates == old(#metaCreates) + 1 && #lastMetaCreated == id && #lastMetaCreatedMP == mountpoint
+//@ func (SessionMetadatasState).Delete(s SessionMetadatasState, id string) (err error)
+//@   modifies #metaDeletes, #lastMetaDeleted
+//@   ensures #metaDeletes == old(#metaDeletes) + 1 && #lastMetaDeleted == id
+
+//@ func (SubscriptionsState).DeletePeer(s SubscriptionsState, peer uint64)
+//@   modifies #subPeerDeletes, #lastSubPeerDeleted
+//@   ensures #subPeerDeletes == old(#subPeerDeletes) + 1 && #lastSubPeerDeleted == peer
+//@ func (SessionMetadatasState).DeletePeer(s SessionMetadatasState, peer uint64) (err error)
+//@   modifies #metaPeerDeletes, #lastMetaPeerDeleted
+//@   ensures #metaPeerDeletes == old(#metaPeerDeletes) + 1 && #lastMetaPeerDeleted == peer
+//@ func (SessionMetadatasState).ByPeer(s SessionMetadatasState, peer uint64) (r []api.SessionMetadatas)
+//@   ensures r == peer_sessions(s, peer)
+//@   pure
